@@ -128,6 +128,19 @@ def _bloom(case, ctx):
         r, want = cref.bloom_write(est, fpr, _kb(pool), seq)
         ctx.check("C06.writer", r == len(raw) and want == raw, lambda: f"library file differs from the reference writer's at byte "
                                                                        f"{next((i for i, (a, b) in enumerate(zip(raw, want)) if a != b), min(len(raw), len(want)))} (len {len(raw)} vs {r})")
+        if case["t"] != "ondisk":
+            # the file a path export leaves behind - also where a longer or a shorter file was before - is that same byte string
+            p2 = os.path.join(ctx.tmpdir(), "x.blm")
+            pre = len(pool) % 3
+            if pre:
+                with open(p2, "wb") as fh:
+                    fh.write(b"\xa5" * (len(raw) + 37 if pre == 1 else max(0, len(raw) - 5)))
+                ctx.feat("export_over_longer_file" if pre == 1 else "export_over_shorter_file")
+            ctx.call(NX, o.export, p2)
+            with open(p2, "rb") as fh:
+                got = fh.read()
+            ctx.check("C06.writer", got == want, lambda: f"file written by export(path) (len {len(got)}) differs from the reference writer's (len {len(want)}); "
+                                                         f"{['no file', 'a longer file', 'a shorter file'][pre]} was at the path before")
         if case["t"] == "ondisk":
             o.close()
             ctx.check("C06.writer", open(path, "rb").read() == want, "on-disk backing file differs from the reference writer's file")
